@@ -190,21 +190,8 @@ where
             ..OrderedAig::default()
         };
 
-        aig.latches.reserve(self.header.latch_count);
-        aig.outputs.reserve(self.header.output_count);
-        aig.bad_state_properties
-            .reserve(self.header.bad_state_property_count);
-        aig.invariant_constraints
-            .reserve(self.header.invariant_constraint_count);
-        aig.justice_properties = (0..self.header.justice_property_count)
-            .map(|_| vec![])
-            .collect();
-        aig.fairness_constraints
-            .reserve(self.header.fairness_constraint_count);
-        aig.and_gates.reserve(self.header.and_gate_count);
-
-        let justice_property_count = self.header.justice_property_count;
-
+        // No pre-allocation from the header counts: they are merely declared by the input and can be
+        // arbitrarily large, the vectors grow with the data that is actually read.
         let mut aag_reader = self.latches()?;
         while let Some(latch) = aag_reader.next_latch()? {
             aig.latches.push(latch);
@@ -225,11 +212,12 @@ where
             aig.invariant_constraints.push(invariant_constraint);
         }
 
-        let mut justice_property_sizes = Vec::with_capacity(justice_property_count);
+        let mut justice_property_sizes = Vec::new();
 
         let mut aag_reader = aag_reader.justice_properties()?;
         while let Some(justice_property_size) = aag_reader.next_justice_property_size()? {
             justice_property_sizes.push(justice_property_size);
+            aig.justice_properties.push(vec![]);
         }
 
         let mut justice_property = 0;
